@@ -430,9 +430,7 @@ class GitFileHandler(abc.FileHandler):
         filename: str | pathlib.PurePosixPath,
         mode: t.Literal["r", "rb", "w", "wb"] = "rb",
     ) -> t.BinaryIO:
-        path = capellambse.helpers.normalize_pure_path(
-            filename, base=self.subdir
-        )
+        path = self.subdir / capellambse.helpers.normalize_pure_path(filename)
         if "w" in mode:
             if self._transaction is None:
                 raise abc.TransactionClosedError(
@@ -549,7 +547,7 @@ class GitFileHandler(abc.FileHandler):
         path
             The path to the directory to iterate over.
         """
-        path = capellambse.helpers.normalize_pure_path(path, base=self.subdir)
+        path = self.subdir / capellambse.helpers.normalize_pure_path(path)
         for subpath in self.cache_dir.joinpath(*path.parts).iterdir():
             yield GitPath(self, pathlib.PurePosixPath(path, subpath.name))
 
